@@ -167,6 +167,8 @@ def classify_runtime(msg):
                 if sub in msg:
                     site = s2
                     break
+    if site == "incompatible":
+        return site, None
     if site == "no_matching_brace":
         m = _brace_line.search(msg)
         return site, (int(m.group(1)) if m else None)
